@@ -15,6 +15,9 @@ and compared with the specification formula:
   NO-PANIC        none of the fee functions contains an overflow-checked (`Assert`) arithmetic operation or
                   an unwrap/expect other than the documented u64*u64 <= u128 multiplication.
   GUARD-from_tx   TransactionFee::checked_from_tx rejects min_fee > max_fee and narrowing failures.
+  DISPATCH-min_gas  min_fee / max_fee / refund_fee / every max_gas body reach min_gas and max_gas through the Chargeable
+                  *method* on self (so per-kind overrides such as Upload's storage surcharge apply); the free helper
+                  fee::min_gas is called only from min_gas bodies.
 Not decided: numeric equality with the specification beyond these shapes (they are the specification's formulas).
 """
 import re
